@@ -338,6 +338,15 @@ def execute(plan, tier, seed, batch_seconds=60.0):
 
     wall = time.time() - t_start
     n_main = len([t for t in plan.tasks if not t.get('twin_of')])
+    by_kind = {}
+    for t in plan.tasks:
+        if t.get('twin_of'):
+            continue
+        label = {'ch': 'crosshair_conditions', 'lemma': 'smt_lemmas', 'native': 'native_byproducts', 'enum': 'native_enumerations_of_finite_domains'}[t['kind']]
+        st = results.get(t['id'], {}).get('state')
+        d = by_kind.setdefault(label, {'total': 0, 'held': 0})
+        d['total'] += 1
+        d['held'] += 1 if st in ('confirmed', 'unsat', 'ok') else 0
     cov = {
         'evaluations': max(1, paths + queries),
         'distinct_nontrivial': decided,
@@ -346,6 +355,7 @@ def execute(plan, tier, seed, batch_seconds=60.0):
         'functions_encoded': plan.functions_encoded,
         'bounds': plan.bounds,
         'conditions': {'total': n_main, **counts},
+        'conditions_by_kind': by_kind,
         'paths': paths, 'solver_queries': queries, 'solver_seconds': round(solver_s, 2),
         'stubs': plan.stubs, 'outside_the_claim': plan.outside,
         'exhaustive': bool(n_main and counts['confirmed'] == n_main),
